@@ -603,8 +603,8 @@ def WellFormed (svs : List (κ × Survey τ ν)) : Prop :=
 theorem merge_ok [LinearOrder κ] (le : τ → τ → Bool) (svs : List (κ × Survey τ ν)) (nOffsets : Nat)
     (perm : List Nat) (m : Merged κ τ ν) (h : merge le svs nOffsets perm = .ok m) :
     (∀ p ∈ svs, p.2.hasCov = false) ∧ (uniq (catIds svs)).length = nOffsets + 1 ∧
-    validPerm le (catT svs) perm = true ∧ m.t = gather perm (catT svs) ∧ m.rv = gather perm (catRv svs) ∧
-    m.err = gather perm (catErr svs) ∧ m.ids = gather perm (catIds svs) ∧ m.t.head? = some m.tref := by
+    isPermOfRange perm (catT svs).length = true ∧ m.t = gather perm (catT svs) ∧ m.rv = gather perm (catRv svs) ∧
+    m.err = gather perm (catErr svs) ∧ m.ids = gather perm (catIds svs) ∧ minT le m.t = some m.tref := by
   unfold merge at h
   split at h
   · cases h
@@ -617,13 +617,78 @@ theorem merge_ok [LinearOrder κ] (le : τ → τ → Bool) (svs : List (κ × S
       · rename_i h3
         split at h
         · cases h
-        · rename_i m0 r hg
+        · rename_i m0 hg
           injection h with h
           subst h
-          refine ⟨?_, by simpa using h2, by simpa using h3, hg.symm, rfl, rfl, rfl, rfl⟩
+          refine ⟨?_, by simpa using h2, by simpa using h3, rfl, rfl, rfl, rfl, hg⟩
           intro p hp
           simp only [List.any_eq_true, not_exists, not_and, Bool.not_eq_true] at h1
           exact h1 p hp
+
+theorem foldl_min_spec (le : τ → τ → Bool) (htrans : ∀ a b c, le a b = true → le b c = true → le a c = true)
+    (htotal : ∀ a b, (le a b || le b a) = true) (hrefl : ∀ a, le a a = true) :
+    ∀ (r : List τ) (a : τ),
+      let z := r.foldl (fun a x => if le a x then a else x) a
+      (z = a ∨ z ∈ r) ∧ le z a = true ∧ ∀ x ∈ r, le z x = true
+  | [], a => by simp [hrefl]
+  | x :: r, a => by
+    intro z
+    by_cases hax : le a x = true
+    · have ih := foldl_min_spec le htrans htotal hrefl r a
+      have hz : z = r.foldl (fun a x => if le a x then a else x) a := by simp [z, List.foldl_cons, hax]
+      rw [hz]
+      obtain ⟨h1, h2, h3⟩ := ih
+      refine ⟨?_, h2, ?_⟩
+      · rcases h1 with h1 | h1
+        · exact Or.inl h1
+        · exact Or.inr (List.mem_cons_of_mem _ h1)
+      · intro y hy
+        rcases List.mem_cons.mp hy with rfl | hy
+        · exact htrans _ _ _ h2 hax
+        · exact h3 y hy
+    · have hxa : le x a = true := by
+        have := htotal a x
+        simp only [Bool.or_eq_true] at this
+        rcases this with h | h
+        · exact absurd h hax
+        · exact h
+      have ih := foldl_min_spec le htrans htotal hrefl r x
+      have hz : z = r.foldl (fun a x => if le a x then a else x) x := by simp [z, List.foldl_cons, hax]
+      rw [hz]
+      obtain ⟨h1, h2, h3⟩ := ih
+      refine ⟨?_, htrans _ _ _ h2 hxa, ?_⟩
+      · rcases h1 with h1 | h1
+        · exact Or.inr (by rw [h1]; exact List.mem_cons_self)
+        · exact Or.inr (List.mem_cons_of_mem _ h1)
+      · intro y hy
+        rcases List.mem_cons.mp hy with rfl | hy
+        · exact h2
+        · exact h3 y hy
+
+/-- `minT` returns an element of the list that is `≤` every element -/
+theorem minT_spec (le : τ → τ → Bool) (htrans : ∀ a b c, le a b = true → le b c = true → le a c = true)
+    (htotal : ∀ a b, (le a b || le b a) = true) (hrefl : ∀ a, le a a = true)
+    (l : List τ) (m : τ) (h : minT le l = some m) : m ∈ l ∧ ∀ x ∈ l, le m x = true := by
+  cases l with
+  | nil => simp [minT] at h
+  | cons a r =>
+    simp only [minT, Option.some.injEq] at h
+    obtain ⟨h1, h2, h3⟩ := foldl_min_spec le htrans htotal hrefl r a
+    rw [h] at h1 h2 h3
+    refine ⟨?_, ?_⟩
+    · rcases h1 with h1 | h1
+      · rw [h1]; exact List.mem_cons_self
+      · exact List.mem_cons_of_mem _ h1
+    · intro x hx
+      rcases List.mem_cons.mp hx with rfl | hx
+      · exact h2
+      · exact h3 x hx
+
+theorem isPermOfRange_range (n : Nat) : isPermOfRange (List.range n) n = true := by
+  simp [isPermOfRange]
+
+theorem catIds_length (svs : List (κ × Survey τ ν)) : (catIds svs).length = (catT svs).length := by
+  simp only [catIds, catT, List.length_flatMap, List.length_replicate]
 
 theorem zip4_proj : ∀ (a : List α) (b : List β) (c : List γ) (d : List δ),
     b.length = a.length → c.length = a.length → d.length = a.length →
